@@ -4,7 +4,7 @@
    Primitives are explicit premises: H (Keccak-256 of what a MAC hash absorbed),
    aes_block (macCipher.Encrypt), ks (AES-CTR key stream shared by both sides),
    snappy_enc/snappy_dec, recover (ECDSA public-key recovery), sign. *)
-From AQ Require Import Lib.Bytes Lib.Keccak Rlp.RlpSpec Generated.GenParamsNet Net.Frame Net.Discover Net.Limits Net.NetProofs.
+From AQ Require Import Lib.Bytes Lib.Keccak Rlp.RlpSpec Generated.GenParamsNet Net.Frame Net.Discover Net.Limits Net.Handshake Net.NetProofs.
 Local Open Scope N_scope.
 
 (* ---- RLPx frames ---- *)
@@ -185,6 +185,34 @@ Theorem C17_packet_authentic :
 Proof. exact packet_authentic. Qed.
 Print Assumptions C17_packet_authentic.
 
+(* The typed codec: decoding the encoding of any well-formed request of the four
+   kinds gives it back (trailing bytes ignored, as Stream.Decode does).
+   wf_msg: integers fit their Go types (uint / uint64 / uint16), node ids and the
+   findnode target have 64 bytes, byte strings are shorter than 2^32, every
+   forward-compatibility element is a non-empty value Stream.Raw reads back as itself. *)
+Theorem C17_dec_msg_encode : forall (m : dmsg) (r : bytes),
+  wf_msg m -> dec_msg (msg_type m) (encode_msg m ++ r) = Some m.
+Proof. exact dec_msg_encode. Qed.
+Print Assumptions C17_dec_msg_encode.
+
+(* decodePacket (encodePacket req) = req, with the identity `recover` yields for the
+   signature `sign` made and the packet hash — aqua mode with type bytes 134..137,
+   netcompat mode with 134..137 or the original 1..4. *)
+Theorem C17_packet_roundtrip :
+  forall (H : bytes -> bytes) (recover : bytes -> bytes -> option bytes) (sign : bytes -> bytes -> bytes),
+  (forall m, length (H m) = 32%nat) ->
+  forall (netcompat : bool) (key : bytes) (ptype : N) (m : dmsg) (id : bytes),
+  wf_msg m ->
+  ptype = msg_type m \/ (netcompat = true /\ ptype + 133 = msg_type m) ->
+  let sigdata := sigdata_of netcompat ptype m in
+  let sig := sign key (H sigdata) in
+  length sig = 65%nat ->
+  recover (H sigdata) sig = Some id ->
+  decode_packet H recover netcompat (encode_packet H sign netcompat key ptype m) =
+    DOk m id (H (sig ++ sigdata)).
+Proof. exact packet_roundtrip. Qed.
+Print Assumptions C17_packet_roundtrip.
+
 (* decodePacket never panics: for EVERY byte string, in both network modes,
    whatever H and recover are.  (Until commit f90a10c "fix: discover decodePacket
    rejects datagrams whose signed data is shorter than the type byte plus network
@@ -207,6 +235,21 @@ Theorem C17_decode_packet_short_sigdata_rejected :
   decode_packet H recover false (H (sig ++ sigdata) ++ sig ++ sigdata) = DTooSmallBody id.
 Proof. exact decode_packet_short_sigdata_rejected. Qed.
 Print Assumptions C17_decode_packet_short_sigdata_rejected.
+
+(* ---- RLPx encryption handshake reader (framing only; no claim about the key agreement) ----
+   Whatever the remote sends and whatever ECIES decryption answers, readHandshakeMsg
+   buffers at most size+2 <= 65537 bytes (its uint16 subtraction cannot wrap), and
+   when it gets as far as decrypting an EIP-8 packet it has consumed exactly the
+   size+2 bytes the prefix declares, all of which were actually received. *)
+Theorem C17_handshake_buffer_bounded :
+  forall (dec_plain : bytes -> option bytes) (dec_eip8 : bytes -> bytes -> option bytes) (body_ok : bytes -> bool)
+         (plain_size : N) (s : bytes) (c : hclass) (n : N),
+  2 <= plain_size < two16 ->
+  read_handshake_msg dec_plain dec_eip8 body_ok plain_size s = (c, n) ->
+  n <= 65537 /\ plain_size <= n /\
+  (c = HOk \/ c = HBadBody \/ c = HDecryptErr -> n <= lenN s /\ n = N_of_be (firstn 2 s) + 2).
+Proof. exact handshake_buffer_bounded. Qed.
+Print Assumptions C17_handshake_buffer_bounded.
 
 (* ---- aqua sub-protocol limits ---- *)
 Theorem C17_gate_rejects_oversize : forall code size,
@@ -270,3 +313,11 @@ Example C17_example_packet :
   | _ => False
   end.
 Proof. vm_compute. split; reflexivity. Qed.
+
+(* wf_msg is inhabited by requests with forward-compatibility elements *)
+Example C17_example_wf_msg :
+  wf_msg (Ping 4 (mk_endpoint [x7f; x00; x00; x01] 30303 30303) (mk_endpoint [] 0 65535) 1700000000 [[x05]; [x7f]]).
+Proof.
+  split; [|vm_compute; reflexivity].
+  repeat split; try (vm_compute; reflexivity); repeat constructor; try discriminate; intros x; reflexivity.
+Qed.
